@@ -1484,6 +1484,9 @@ def run_C09(ctx):
             progs[k] += ("rule zm%d_unary {\nzmsg[*].n exists <<every entry needs n>>\nzmsg[*].n is_string <<n is text>>\n}\n"
                          "rule zm%d_binary {\nzmsg[*].v == 1 <<v must be one>>\nsome zmsg[*].w > 9 <<no big w>>\n}\n") % (k, k)
         runs.append((progs, json.dumps(d)))
+    # a report far larger than any I/O buffer (80 failing rules with long messages): the library call must return ALL of it
+    big = "".join("rule big%d { zbig == %d <<message number %d, padded so that the report grows well beyond eight kilobytes of JSON text>> }\n" % (k_, k_ + 100, k_) for k_ in range(80))
+    runs.append(([big], json.dumps({"zbig": 1})))
     # the record trees themselves (checks, values, messages) against the model: the report is derived from them
     ccases = [{"rules": txt, "data": data} for files, data in runs[: (2000 if ctx.thorough() else 250)] for txt in files]
     absorb(res, vlib.correspond(ccases, ctx.hp, ctx.mp, detail=True), "C09 record trees")
@@ -1532,6 +1535,11 @@ def run_C09(ctx):
         # (1) library report per rules file == model report from that tree
         for fi in range(len(files)):
             rep = per[(ri, fi)].get("report", {})
+            if "ok_text" in rep:
+                res.judge_failures.append({"what": "run_checks returned a report that is not a JSON document (%d characters, starts with %r)" % (
+                                               len(rep["ok_text"]), rep["ok_text"][:60]),
+                                           "class": "c09-report-not-json", "rules": files[fi], "data": data})
+                continue
             if "ok" not in rep:
                 continue
             impl_rep = canon_impl_report(rep["ok"])
